@@ -1,2 +1,206 @@
-(* C07 — stub: no theorems yet *)
-From Zap Require Import Base.Wire C07.Model C07.Proofs.
+(* C07 — Logger context is exact and isolated across derived loggers.
+   Only statements closed by [exact]; the proofs are in C07/{Proofs,Sim,Path,Main,Iso,Alias}.v.
+
+   Vocabulary (C07/Model.v).  A configuration is a root composition [comp] of cores (JSON, console,
+   observer leaves under tee / sampler / hooked / level-increased / lazy wrappers).  A program is a
+   list of operations, executed in order: [ODerive parent step w] (With, WithLazy, Named,
+   WithOptions(Fields), Sugar, Desugar — plain or sugared) and [OLog node hi msg fields w]; [w] is the
+   value a world variable has at that moment, which MUTABLE marshalers ([SMObj] ...) read when they are
+   invoked.  [run_events]: the operational model of zap's code (loggers holding cores, encoder states,
+   observer contexts, a store of sync.Once cells).  [spec_events]: the specification — a logger IS its
+   derivation path (name segments + context items); a call emits, on every sink its level reaches,
+   the line printed from the tree-level semantics (Enc/JsonAst.v) of: level, dot-joined non-empty
+   segments, message, the path's fields in order (a With/Fields item evaluated at derivation, a
+   WithLazy item at its first use, an observer's Fields when rendered), then the call-site fields. *)
+From Coq Require Import List ZArith Bool.
+From Coq.Strings Require Import Byte.
+Import ListNotations.
+From Zap Require Import Base.Wire Enc.Bytes Enc.Fields Enc.JsonEnc Enc.JsonAst Enc.Wf.
+From Zap Require Import C07.Model C07.Proofs C07.Sim C07.Path C07.Main C07.Iso C07.Alias.
+
+(* for every configuration, every program (any tree shape, any number of nodes, any order of
+   derivations and uses, mutable marshalers included): every logging call makes observable exactly
+   what its own path prescribes — on every core type *)
+Theorem C07_exact : forall c ops, wf_comp c = true -> forallb wf_op ops = true ->
+  run_events c ops = spec_events c ops.
+Proof. exact exact_thm. Qed.
+Print Assumptions C07_exact.
+
+(* Logger.Named: empty segments ignored, the others dot-joined *)
+Theorem C07_named : forall sg s,
+  path_name (sg ++ [s]) =
+    if is_nil s then path_name sg else if is_nil (path_name sg) then s else path_name sg ++ [DOT] ++ s.
+Proof. exact path_name_snoc. Qed.
+Print Assumptions C07_named.
+
+(* every wrapper's With keeps the wrapper and is With at every leaf (tee, sampler, hooked, level filter) *)
+Theorem C07_wrapper_with_commutes : forall w fs p,
+  shape_of (pwith w fs p) = shape_of p /\ leaves (pwith w fs p) = map (pwith w fs) (leaves p).
+Proof. exact wrapper_with_commutes. Qed.
+Print Assumptions C07_wrapper_with_commutes.
+
+(* ... including through lazyWithCore cells of the root composition: With on it yields the expected
+   core of the one-item path, evaluates exactly the cells still pending, leaves the others alone *)
+Theorem C07_root_with : forall w c fs sg m, NoDup (all_ids c) -> root_ok m sg c ->
+  exists sg', rwith w fs c sg = (pexp (mark_all w (all_ids c) m) c [PEager w fs], sg') /\
+              root_ok (mark_all w (all_ids c) m) sg' c /\
+              (forall id, ~ In id (all_ids c) -> lookup id sg' = lookup id sg).
+Proof. exact rwith_spec. Qed.
+Print Assumptions C07_root_with.
+
+(* with_compose: the encoder state after a chain of Withs continues the fold (bytes and open
+   namespaces carried across With), and the line an io core writes after ANY chain of Withs is the
+   print of the tree of all the chain's fields in order followed by the call-site fields *)
+Theorem C07_with_compose : forall c sp ctxs1 ctxs2,
+  with_chain c sp (ctxs1 ++ ctxs2) = fold_left (fun s fs => enc_flds c sp fs s) ctxs2 (with_chain c sp ctxs1).
+Proof. exact with_compose. Qed.
+Print Assumptions C07_with_compose.
+Theorem C07_json_line : forall hi nm msg ctxs fs, forallb wf_flds ctxs = true -> wf_flds fs = true ->
+  encode_entry c07_cfg false (with_chain c07_cfg false ctxs) (mk_entry hi nm msg) fs =
+    Some (json_line hi nm msg (concat ctxs ++ fs)).
+Proof. exact json_leaf. Qed.
+Print Assumptions C07_json_line.
+Theorem C07_console_line : forall hi nm msg ctxs fs, forallb wf_flds ctxs = true -> wf_flds fs = true ->
+  console_line c07_cfg (with_chain c07_cfg true ctxs) (mk_entry hi nm msg) fs =
+    console_spec_line hi nm msg (concat ctxs ++ fs).
+Proof. exact console_leaf. Qed.
+Print Assumptions C07_console_line.
+
+(* isolation, pure model.  What the call [OLog n hi msg fs w] issued after ANY program emits is the
+   function [path_emits] of the logger's own path and of the evaluation worlds of the lazily evaluated
+   contexts on that path: *)
+Theorem C07_emits_own_path : forall c ops n sn hi msg fs w,
+  wf_comp c = true -> forallb wf_op ops = true -> wf_sflds fs = true ->
+  nth_error (snodes (sfinal c ops)) n = Some sn ->
+  emits c ops n hi msg fs w = path_emits (root_of c) (smarks (sfinal c ops)) sn hi msg fs w.
+Proof. exact emits_path. Qed.
+Print Assumptions C07_emits_own_path.
+(* ... so two loggers with the same path whose lazy contexts were evaluated at the same moments emit
+   the same, in any two programs (in particular: before and after any further derivations and calls
+   on parents, siblings, descendants, in any order) *)
+Theorem C07_isolated : forall c ops1 ops2 n1 n2 sn hi msg fs w,
+  wf_comp c = true -> forallb wf_op ops1 = true -> forallb wf_op ops2 = true -> wf_sflds fs = true ->
+  nth_error (snodes (sfinal c ops1)) n1 = Some sn -> nth_error (snodes (sfinal c ops2)) n2 = Some sn ->
+  (forall id, In id (all_ids (root_of c) ++ lazy_ids (items sn)) ->
+     lookup id (smarks (sfinal c ops1)) = lookup id (smarks (sfinal c ops2))) ->
+  emits c ops1 n1 hi msg fs w = emits c ops2 n2 hi msg fs w.
+Proof. exact isolated_thm. Qed.
+Print Assumptions C07_isolated.
+(* a logger's path never changes *)
+Theorem C07_path_stable : forall c ops extra n sn,
+  nth_error (snodes (sfinal c ops)) n = Some sn -> nth_error (snodes (sfinal c (ops ++ extra))) n = Some sn.
+Proof. exact path_stable. Qed.
+Print Assumptions C07_path_stable.
+(* with static fields: a function of the name and of the sequence of field lists alone — not of the
+   rest of the tree, the order of operations, the worlds, or which steps were lazy *)
+Theorem C07_isolated_static : forall c ops1 ops2 n1 n2 sn1 sn2 hi msg fs w1 w2,
+  wf_comp c = true -> forallb wf_op ops1 = true -> forallb wf_op ops2 = true -> wf_sflds fs = true ->
+  static_comp c = true -> forallb static_op ops1 = true -> static_sflds fs = true ->
+  nth_error (snodes (sfinal c ops1)) n1 = Some sn1 -> nth_error (snodes (sfinal c ops2)) n2 = Some sn2 ->
+  path_name (segs sn1) = path_name (segs sn2) -> map item_fs (items sn1) = map item_fs (items sn2) ->
+  emits c ops1 n1 hi msg fs w1 = emits c ops2 n2 hi msg fs w2.
+Proof. exact isolated_static_thm. Qed.
+Print Assumptions C07_isolated_static.
+
+(* isolation, heap models: the two places where memory is shared and mutated *)
+Theorem C07_observer_with_no_alias : forall (T : Type) (d : T) (newcap : nat -> nat -> nat),
+  (forall c n, n <= newcap c n) ->
+  forall ops h obs, Forall (valid T h) obs ->
+  map (read T (fst (orun T d newcap h obs ops))) (snd (orun T d newcap h obs ops)) = prun T (map (read T h) obs) ops.
+Proof. exact observer_no_alias. Qed.
+Print Assumptions C07_observer_with_no_alias.
+Theorem C07_clone_fresh_buffer : forall h e bs dns, ebuf e < length h ->
+  bread (fst (io_with h e bs dns)) (snd (io_with h e bs dns)) = bread h e ++ bs /\
+  ens (snd (io_with h e bs dns)) = ens e + dns /\
+  (forall e0, ebuf e0 < length h -> bread (fst (io_with h e bs dns)) e0 = bread h e0).
+Proof. exact clone_fresh_buffer_thm. Qed.
+Print Assumptions C07_clone_fresh_buffer.
+(* the models can express the failures: the two-index append leaks a sibling's field; a Clone sharing
+   buf changes the parent (these are NOT zap's code: mutations the check must catch) *)
+Theorem C07_observer_two_index_refuted :
+  let '(h, obs) := orun2 [[]] [nil_slice] alias_witness in
+  map (read nat h) obs <> prun nat (map (read nat [[]]) [nil_slice]) alias_witness /\
+  nth 4 (map (read nat h) obs) [] = [1; 2; 3; 20].
+Proof. exact observer_two_index_refuted. Qed.
+Print Assumptions C07_observer_two_index_refuted.
+Theorem C07_clone_shared_refuted :
+  exists h e bs, ebuf e < length h /\ bread (fst (io_with_shared h e bs 0)) e <> bread h e.
+Proof. exact clone_shared_refuted. Qed.
+Print Assumptions C07_clone_shared_refuted.
+
+(* WithLazy.  (a) once: an evaluation world, once recorded, never changes;  (b) first use: it is the
+   world of the first later operation that uses the context (an enabled call from, or a With /
+   WithOptions(Fields) derivation on, a logger holding it — [used_ids]);  (c) with fields that do not
+   depend on the moment of evaluation, WithLazy is With. *)
+Theorem C07_lazy_once : forall root ops ss, mext (smarks ss) (smarks (fst (srun root ss ops))).
+Proof. exact marks_once. Qed.
+Print Assumptions C07_lazy_once.
+Theorem C07_lazy_first_use : forall root ops ss id, lookup id (smarks ss) = None ->
+  lookup id (smarks (fst (srun root ss ops))) = first_use root ss ops id.
+Proof. exact lazy_first_use. Qed.
+Print Assumptions C07_lazy_first_use.
+Theorem C07_lazy : forall c ops,
+  wf_comp c = true -> forallb wf_op ops = true -> static_comp c = true -> forallb static_op ops = true ->
+  run_events c (map eagerize ops) = run_events c ops.
+Proof. exact lazy_as_with_thm. Qed.
+Print Assumptions C07_lazy.
+
+(* the specification's totalised default (world 0 for a lazily evaluated item that is not marked) is
+   never read: the walk reads only the marks of the cells the entry reaches and of the path, and at a
+   logging call all of those are marked *)
+Theorem C07_spec_reads : forall m1 m2 hi nm msg w fs c ch nn,
+  (forall id, In id (log_ids hi c ++ lazy_ids ch) -> lookup id m1 = lookup id m2) ->
+  swalk m1 hi nm msg w fs c ch nn = swalk m2 hi nm msg w fs c ch nn.
+Proof. exact swalk_ext. Qed.
+Print Assumptions C07_spec_reads.
+Theorem C07_spec_marked : forall hi root its w m,
+  all_marked (mark_all w (log_marks hi root its) m) (log_ids hi root ++ lazy_ids its).
+Proof. exact spec_marked. Qed.
+Print Assumptions C07_spec_marked.
+
+(* the oracle the driver runs is the proved specification *)
+Theorem C07_wire : forall i, wf i = true -> spec i (model i) = true.
+Proof. exact spec_model. Qed.
+Print Assumptions C07_wire.
+
+(* ---------- non-vacuity ---------- *)
+Definition sf (k v : bytes) : sfld := SF (FString k v).
+Definition ex_comp : comp := CTee [CFilt true (CLazy [SMObj [x72]] CJson); CHook CObs].
+Definition ex_ops : list op :=
+  [ ODerive 0 (SWith [sf [x61] [x31]]) 1;                 (* 1 = root.With(a=1) *)
+    ODerive 1 (SNamed [x78]) 1;                           (* 2 = 1.Named("x") *)
+    ODerive 1 (SWithLazy [SMStr [x6c]]) 2;                (* 3 = 1.WithLazy(l=<world>) *)
+    ODerive 3 (SNamed []) 2;                              (* 4 = 3.Named("") *)
+    ODerive 1 (SWith [SF (FNamespace [x6e]); sf [x62] [x32]]) 3;   (* 5 = 1.With(namespace n, b=2): sibling of 3 *)
+    OLog 4 true [x6d] [sf [x63] [x33]] 5;                 (* first use of 3's core, through its clone 4 *)
+    OLog 3 true [x6d] [] 7;
+    OLog 5 true [x6d] [sf [x63] [x33]] 8;
+    OLog 2 true [x6d] [] 9 ].
+Example C07_example_wf : wf_comp ex_comp = true /\ forallb wf_op ex_ops = true.
+Proof. vm_compute. split; reflexivity. Qed.
+(* the third call: logger 5, Warn: both sinks; fields a, then namespace n { b, c }, name empty *)
+Example C07_example_line :
+  nth 2 (run_events ex_comp ex_ops) [] =
+    [EOut 0 (Some (json_line true [] [x6d]
+        [FObject [x72] (Obj [FInt k_w 1] None); FString [x61] [x31]; FNamespace [x6e]; FString [x62] [x32]; FString [x63] [x33]]));
+     EOut 1 (Some (json_line true [] [x6d]
+        [FString [x61] [x31]; FNamespace [x6e]; FString [x62] [x32]; FString [x63] [x33]]));
+     EHook [] [x6d]].
+Proof. vm_compute. reflexivity. Qed.
+(* the lazily evaluated stringer of logger 3: the JSON core shows the world of its first use (5, through the clone 4)
+   also in the later call at world 7; the observer, which stores the Field itself, shows the world at which it is rendered *)
+Example C07_example_lazy :
+  nth 1 (run_events ex_comp ex_ops) [] =
+    [EOut 0 (Some (json_line true [] [x6d] [FObject [x72] (Obj [FInt k_w 1] None); FString [x61] [x31]; FStringer [x6c] (OOk [x35])]));
+     EOut 1 (Some (json_line true [] [x6d] [FString [x61] [x31]; FStringer [x6c] (OOk [x37])])); EHook [] [x6d]].
+Proof. vm_compute. reflexivity. Qed.
+Example C07_example_name : nth 3 (run_events ex_comp ex_ops) [] =
+    [EOut 0 (Some (json_line true [x78] [x6d] [FObject [x72] (Obj [FInt k_w 1] None); FString [x61] [x31]]));
+     EOut 1 (Some (json_line true [x78] [x6d] [FString [x61] [x31]])); EHook [x78] [x6d]].
+Proof. vm_compute. reflexivity. Qed.
+(* bytes of one line *)
+Example C07_example_bytes :
+  json_line true [x78] [x6d] [FString [x61] [x31]] =
+    [x7b;x22;x6c;x65;x76;x65;x6c;x22;x3a;x22;x77;x61;x72;x6e;x22;x2c;x22;x6c;x6f;x67;x67;x65;x72;x22;x3a;x22;x78;x22;x2c;
+     x22;x6d;x73;x67;x22;x3a;x22;x6d;x22;x2c;x22;x61;x22;x3a;x22;x31;x22;x7d;x0a].
+Proof. vm_compute. reflexivity. Qed.
